@@ -228,3 +228,113 @@ func ZZC09_export_import() {
 		zzAssert(ok && string(got) == string(w.bytes[d]), "import_yields_complete_identical_content")
 	}
 }
+
+// Import selection from an archive written by another tool: an OCI layout with
+// two tagged images ("a" and "b", possibly sharing a layer) tarred in a
+// symbolic order. The image to import is chosen by name (ImageWithImportName),
+// by the tag of the target reference, or by a digest in the target reference;
+// the target then holds exactly that image, complete and byte-identical, under
+// the target tag, and when the request names nothing in the archive the import
+// fails instead of picking something else.
+func ZZC09_import_select() {
+	zzos.Reset()
+	w := &zzWorld{bytes: map[digest.Digest][]byte{}, mans: map[digest.Digest]bool{}}
+	for i := 0; i < 2; i++ {
+		w.pool = append(w.pool, w.put([]byte{'l', byte('0' + i)}, mediatype.OCI1LayerGzip, false))
+	}
+	zzSmall = true
+	var imgs []descriptor.Descriptor
+	var closure [][]digest.Digest
+	idx := v1.Index{Versioned: v1.IndexSchemaVersion, MediaType: mediatype.OCI1ManifestList}
+	for i, name := range []string{"a", "b"} {
+		before := len(w.all)
+		d := w.image(i)
+		closure = append(closure, append([]digest.Digest{}, w.all[before:]...))
+		imgs = append(imgs, d)
+		e := d
+		e.Annotations = map[string]string{"org.opencontainers.image.ref.name": name}
+		idx.Manifests = append(idx.Manifests, e)
+	}
+	zzSmall = false
+	ib, _ := json.Marshal(idx)
+	// the archive
+	var files []zztar.Entry
+	add := func(name string, data []byte) {
+		files = append(files, zztar.Entry{Hdr: zztar.Header{Name: name, Typeflag: zztar.TypeReg, Size: int64(len(data)), Mode: 0644}, Data: data})
+	}
+	add("oci-layout", []byte(`{"imageLayoutVersion":"1.0.0"}`))
+	add("index.json", ib)
+	done := map[digest.Digest]bool{}
+	for _, d := range w.all {
+		if !done[d] {
+			done[d] = true
+			add("blobs/sha256/"+d.Encoded(), w.bytes[d])
+		}
+	}
+	order := files
+	if zzBool("rotated") {
+		k := zzInt("rotate", 1, len(files)-1)
+		order = append(append([]zztar.Entry{}, files[k:]...), files[:k]...)
+	}
+	zztar.Input = order
+	zzos.Cur.Put("/in.tar", []byte("tar"))
+	fh, _ := zzos.Open("/in.tar")
+	// the request
+	tgtTag := []string{"a", "b", "x"}[zzInt("target_tag", 0, 2)]
+	rTgt, _ := ref.New("ocidir://" + zzTgt + ":" + tgtTag)
+	var opts []ImageOpts
+	want := -1 // index of the image that must arrive, -1: the request names nothing in the archive
+	switch zzInt("select_by", 0, 2) {
+	case 0: // by the tag of the target reference
+		if tgtTag == "a" {
+			want = 0
+		} else if tgtTag == "b" {
+			want = 1
+		}
+	case 1: // by name
+		n := zzInt("import_name", 0, 2)
+		opts = append(opts, ImageWithImportName([]string{"a", "b", "nosuch"}[n]))
+		if n < 2 {
+			want = n
+		}
+	case 2: // by digest in the target reference
+		want = zzInt("digest_of", 0, 1)
+		rTgt = rTgt.AddDigest(imgs[want].Digest.String())
+	}
+	err := rc09().ImageImport(context.Background(), rTgt, fh, opts...)
+	zzReach("select_import_returned")
+	if want < 0 {
+		zzAssert(err != nil, "request_naming_nothing_in_the_archive_fails")
+		return
+	}
+	zzAssert(err == nil, "import_of_a_named_image_succeeds")
+	if err != nil {
+		return
+	}
+	zzReach("select_imported")
+	got := zzTagOfName(zzTgt, tgtTag)
+	zzAssert(got == imgs[want].Digest, "import_yields_the_requested_image")
+	for _, d := range closure[want] {
+		b, ok := zzos.Cur.Data(zzBlobFile(zzTgt, d))
+		zzAssert(ok && string(b) == string(w.bytes[d]), "import_yields_complete_identical_content")
+	}
+}
+
+func rc09() *RegClient { return New() }
+
+func zzTagOfName(root, name string) digest.Digest {
+	b, ok := zzos.Cur.Data(root + "/index.json")
+	if !ok {
+		return ""
+	}
+	var idx v1.Index
+	if json.Unmarshal(b, &idx) != nil {
+		return "invalid"
+	}
+	for _, e := range idx.Manifests {
+		if e.Annotations["org.opencontainers.image.ref.name"] == name {
+			return e.Digest
+		}
+	}
+	return ""
+}
